@@ -96,6 +96,12 @@ def gen_cases(chk):
     cases.append(("szMode=SZ_BEST_SPEED;absErrBound=1E-2", ["c:0:1:%s:%s:0:0,0,0,0,64:0:5:%s" % (dbits(0.1), dbits(0.1), one)], "C:0:0,0,0,1e,28:0:9:%s" % one))
     cases.append(("szMode=SZ_BEST_SPEED;absErrBound=1E-2", ["k:SZ1.4:0:0,0,0,a,a:1:6:%s" % dbits(100.0)], "C:0:0,0,0,1e,28:0:9:%s" % one))
     cases.append(("szMode=SZ_BEST_SPEED;errorBoundMode=PW_REL;pw_relBoundRatio=1E-2", ["c:0:a:0:0:%s:0,0,0,0,64:0:5:%s" % (dbits(1e-6), one)], "C:0:0,0,0,0,c8:0:9:%s" % one))
+    # the configured defaults (mode, bound and each of the three ratios) are what a defaults / customize call compresses with after any earlier call:
+    # one configuration per ratio in use, one earlier explicit compression, observed through every defaults entry
+    for cfgd in ("szMode=SZ_BEST_SPEED;errorBoundMode=REL;relBoundRatio=2E-2", "szMode=SZ_BEST_SPEED;errorBoundMode=ABS_AND_REL;relBoundRatio=2E-2;absErrBound=5E-1",
+                 "szMode=SZ_BEST_SPEED;errorBoundMode=PW_REL;pw_relBoundRatio=3E-2", "szMode=SZ_BEST_SPEED;errorBoundMode=ABS;absErrBound=3E-2"):
+        for k, obs in enumerate(("C:0:0,0,0,0,12c:0:9:%s" % one, "k:SZ:1:0,0,0,14,1e:0:a:%s" % one, "K:SZ:0:0,0,0,0,12c:0:b:%s" % one)):
+            cases.append((cfgd, ["c:%x:0:%s:%s:0:0,0,0,0,64:0:5:%s" % (k % 2, dbits(0.25), dbits(0.125), one)], obs))
     # a constant array (value range within the bound) takes the early-return branch of the entry: per-call state must be put back there too
     for ty in (0, 1):
         cases.append(("szMode=SZ_BEST_SPEED", ["c:%x:0:%s:%s:0:0,0,0,0,100:6:5:%s" % (ty, dbits(1e-3), dbits(1e-3), one)],
